@@ -298,6 +298,27 @@ static int mode_script(const char *script_path, const char *shm_path)
 			uint16_t v = (uint16_t)atol(line + 1);
 			if (pwrite(fd, &v, 2, 12) != 2)
 				return 3;
+		} else if (line[0] == 'R') {
+			/* the segment file is removed and created anew: header with this version and generation, zero body */
+			long v, g;
+			if (sscanf(line + 1, "%ld %ld", &v, &g) != 2)
+				continue;
+			close(fd);
+			unlink(shm_path);
+			fd = open(shm_path, O_RDWR | O_CREAT | O_TRUNC, 0644);
+			if (fd < 0)
+				return 3;
+			unsigned char b[72];
+			memset(b, 0, sizeof b);
+			uint32_t m0 = 0x414D5A4Eu, m1 = 0x43420200u, sz = 72;
+			uint16_t v16 = (uint16_t)v, g16 = (uint16_t)g;
+			memcpy(b, &m0, 4);
+			memcpy(b + 4, &m1, 4);
+			memcpy(b + 8, &sz, 4);
+			memcpy(b + 12, &v16, 2);
+			memcpy(b + 14, &g16, 2);
+			if (pwrite(fd, b, 72, 0) != 72)
+				return 3;
 		} else if (line[0] == 'O') {
 			if (ctx)
 				clockbound_close(ctx);
@@ -339,6 +360,7 @@ static int mode_script(const char *script_path, const char *shm_path)
 				print_err(e);
 			else
 				printf("OK %ld %ld %ld %ld %d\n", (long)g.res.earliest.tv_sec, (long)g.res.earliest.tv_nsec, (long)g.res.latest.tv_sec, (long)g.res.latest.tv_nsec, (int)g.res.clock_status);
+			fflush(stdout);
 		}
 	}
 	if (ctx)
